@@ -57,7 +57,11 @@ func verifPoolGet(buffer *bytes.Buffer, recycled bool) {
 	verifPool.Lock()
 	defer verifPool.Unlock()
 	id := verifPoolID(buffer)
-	verifPoolRecord("g", id)
+	if recycled {
+		verifPoolRecord("r", id)
+	} else {
+		verifPoolRecord("g", id)
+	}
 	if verifPool.live[buffer] {
 		verifPool.violations = append(verifPool.violations, fmt.Sprintf("get-of-live-buffer:%d", id))
 	}
